@@ -69,6 +69,8 @@ Definition decode (case : list Z) : option (elt * Z * scn * (nat -> bool)) :=
       else if op =? 15 then Some (SBoxedMap T mapf p (ids 0 N))
       else if op =? 16 then Some (SBoxedZip T T zipf p (ids 0 N) (ids 2000 N))
       else if op =? 17 then Some (SBoxedMap (kind_elt (other_kind kind)) mapf p (ids 0 N))
+      (* 18: boxed zip with a right operand of the OTHER element kind (identities 2000..) *)
+      else if op =? 18 then Some (SBoxedZip (kind_elt (other_kind kind)) T zipf p (ids 0 N) (ids 2000 N))
       else None in
     match sc with
     | Some s => Some (T, (if op =? 17 then other_kind kind else kind), s,
@@ -87,9 +89,13 @@ Definition canon (kind : Z) (l : list Z) : list Z :=
   if kind =? 1 then map (fun _ => 0) l else l.
 (* dropped identities: inputs (< 5000) are of kind [kind], outputs of map / zip (>= 5000) of
    kind [okind] *)
-Definition canon_drops (kind okind : Z) (l : list Z) : list Z :=
-  sortZ (flat_map (fun x => let k := if x <? 5000 then kind else okind in
+Definition canon_drops3 (kind rkind okind : Z) (l : list Z) : list Z :=
+  sortZ (flat_map (fun x => let k := if x <? 2000 then kind else if x <? 5000 then rkind else okind in
                             if k =? 2 then [] else if k =? 1 then [0] else [x]) l).
+Definition canon_drops (kind okind : Z) (l : list Z) : list Z := canon_drops3 kind kind okind l.
+(* the kind of the identities 2000.. (right operand of a zip) *)
+Definition right_kind (case : list Z) : Z :=
+  if nth 0 case 0 =? 18 then other_kind (nth 1 case 0) else nth 1 case 0.
 
 (* tolerant replay: the allocator observables of a trace *)
 Record tally : Type := mkTally {
